@@ -510,20 +510,31 @@ def r02_12(ctx):
     fired = lambda f: f[0] == 'bool' and f[2] is True and is_call(strip(f[1]), 'should_retransmit')
     ge = guard_edges(F, d, fired)
     ctx.need(ge, "should_retransmit() test in tcp::Socket::dispatch")
-    sites = []
+    # set_for_idle calls behind the expired-timer edge: directly in dispatch, or inside a private helper that dispatch calls
+    # there (the block may have been extracted into a function of its own)
+    sites = []          # (body of the call, block, enclosing call block in dispatch or None)
     for x in d.calls():
-        if d.callee_name(x[1]) == idle.key:
-            # only the set_for_idle calls that lie behind the expired-timer edge
-            if not cut_sites(d, [x[0]], ge):
-                sites.append(x[0])
+        nm = d.callee_name(x[1])
+        if cut_sites(d, [x[0]], ge):
+            continue          # reachable without the expired-timer edge: a different use
+        if nm == idle.key:
+            sites.append((d, x[0], None))
+            continue
+        hb = F.bodies.get(nm or '')
+        if hb is not None and hb.meta.get('impl_self') == SOCK and hb.key != d.key and len(F.callers(hb.key)) == 1:
+            for y in hb.calls():
+                if hb.callee_name(y[1]) == idle.key:
+                    sites.append((hb, y[0], x[0]))
     ctx.need(sites, "set_for_idle behind the expired retransmission timer")
     open_or_empty = p_any(lambda f: f[0] == 'rel' and f[1] == 'Ne' and f"F:{SOCK}.remote_win_len" in leafs(f[2]) and const_int(simplify(f[3])) == 0,
                           lambda f: f[0] == 'bool' and f[2] is True and is_call(strip(f[1]), 'is_empty') and f"F:{SOCK}.tx_buffer" in leafs(f[1]))
-    for s in sites:
-        bad = unguarded(F, d, [s], open_or_empty)
+    for body, s_, outer in sites:
+        bad = unguarded(F, body, [s_], open_or_empty)
+        if bad and outer is not None:
+            bad = unguarded(F, d, [outer], open_or_empty)
         if bad:
             ctx.bad("dispatch|rto-into-zero-window|idle", "after the retransmission timer expired the timer goes idle even if the peer window is zero and data is queued: "
-                    "nothing can be resent, no probe is scheduled, and a lost window update stalls the connection for good", body=d, bb=s, path=bad[0][1])
+                    "nothing can be resent, no probe is scheduled, and a lost window update stalls the connection for good", body=body, bb=s_, path=bad[0][1])
         else:
             ctx.ok(('rto', 'idle-only-when-sendable'), sample=dict(call='timer.set_for_idle()', guard='remote_win_len != 0 | tx_buffer.is_empty()'))
 
